@@ -1456,7 +1456,9 @@ def cut_block(body, spec, name):
     first = lex(spec['first'])
     # "$END": through the end of the function body; "$STMT": through the end of the statement the first anchor starts
     # (a control header `while (..)` / `if (..)` + its braced body, or up to the next top-level ';')
-    last_kind = spec['last'] if spec['last'] in ('$END', '$STMT') else None
+    # "$BLOCKEND": through the end of the innermost `{...}` block that contains the first anchor (e.g. the rest of a loop body), so that a
+    # change of the block's last statement does not lose the anchor
+    last_kind = spec['last'] if spec['last'] in ('$END', '$STMT', '$BLOCKEND') else None
     last = [] if last_kind else lex(spec['last'])
 
     def find(seq, start):
@@ -1474,6 +1476,19 @@ def cut_block(body, spec, name):
     s = a[spec.get('first_ordinal', 0)]
     if last_kind == '$END':
         e = len(body)
+    elif last_kind == '$BLOCKEND':
+        d = 0
+        e = len(body)
+        for j in range(s - 1, -1, -1):
+            if body[j].kind in ('str', 'chr'):
+                continue
+            if body[j].text == '}':
+                d += 1
+            elif body[j].text == '{':
+                if d == 0:
+                    e = match_close(body, j)
+                    break
+                d -= 1
     elif last_kind == '$STMT':
         j = s + len(first)
         if j < len(body) and body[j].text == '{':
